@@ -185,19 +185,119 @@ theorem goAwayClosure_srv {t : Streams} (hsrv : Srv srv t) (k : Nat) : Srv srv (
   · rw [h]; exact errClosure_srv _ _ hsrv
   · rw [h]; exact hsrv
 
+/-- `swap_remove(x)` keeps every entry with another id -/
+theorem mem_swapRemove_of_ne {l : List (Nat × Nat)} {x : Nat} {e : Nat × Nat} (he : e ∈ l) (hne : e.1 ≠ x) :
+    e ∈ Store.swapRemove l x := by
+  unfold Store.swapRemove
+  split
+  · exact he
+  · next i hi =>
+    split
+    · exact he
+    · next last hl =>
+      simp only
+      have hne' : l ≠ [] := by intro h; subst h; cases he
+      have hdl : l = l.dropLast ++ [last] := by
+        have := List.dropLast_concat_getLast hne'
+        rw [List.getLast?_eq_some_getLast hne'] at hl
+        cases hl
+        exact this.symm
+      have hi' := List.findIdx?_eq_some_iff_getElem.mp hi
+      obtain ⟨hil, hix, _⟩ := hi'
+      have hix' : l[i].1 = x := by simpa using hix
+      rw [hdl] at he
+      rcases List.mem_append.mp he with h1 | h1
+      · split
+        · exact h1
+        · -- `e` sits in `dropLast`, at an index other than `i`
+          obtain ⟨j, hj, hje⟩ := List.getElem_of_mem h1
+          have hji : j ≠ i := by
+            intro h; subst h
+            have : l[j] = e := by
+              rw [← hje]; exact (List.getElem_dropLast ..).symm
+            rw [this] at hix'; exact hne hix'
+          have : (l.dropLast.set i last)[j]'(by simpa using hj) = e := by
+            rw [List.getElem_set_ne (Ne.symm hji)]; exact hje
+          exact this ▸ List.getElem_mem _
+      · have hel : e = last := by simpa using h1
+        subst hel
+        split
+        · next hlast =>
+          -- `i` is the last index: the removed entry is `last` itself, whose id is `x`
+          exfalso
+          have : l[i] = e := by
+            have h2 : l.getLast hne' = e := by
+              rw [List.getLast?_eq_some_getLast hne'] at hl; exact Option.some.inj hl
+            rw [← h2, List.getLast_eq_getElem]
+            congr 1; omega
+          rw [this] at hix'; exact hne hix'
+        · next hlast =>
+          have hil' : i < l.dropLast.length := by simp; omega
+          exact List.mem_iff_getElem.mpr ⟨i, by simpa using hil', by rw [List.getElem_set_self]⟩
+
+/-- the id-map entries of unselected streams: still there -/
+def KeepsLinks (last : Nat) (srv : Bool) (s1 t : Streams) : Prop :=
+  ∀ e ∈ s1.store.ids, ∀ a, s1.store.get? e.2 = some a → ¬ Sel last srv a → e ∈ t.store.ids
+
+/-- one call of the closure keeps the id-map entries of the unselected streams -/
+theorem keepsLinks_closure {s1 t : Streams} (hids : IdsOK t.store) (hsrv : Srv srv t) (hga : GA last srv err s1 t)
+    (hk : KeepsLinks last srv s1 t) {e0 : Nat × Nat} (he0 : e0 ∈ t.store.ids) :
+    KeepsLinks last srv s1 (goAwayClosure last err t e0.2) := by
+  intro e he a ha hns
+  have het := hk e he a ha hns
+  have hC := errClosure_closure err
+  -- the entry of `e` in `t`
+  rcases hga.keep e.2 a ha with ⟨hs, _⟩ | ⟨b, hb, hab⟩
+  · exact absurd hs hns
+  · have hnsb : ¬ Sel last srv b := fun h => hns (hab.sel.mp h)
+    by_cases hee : e0 = e
+    · subst hee
+      -- the closure looks at an unselected entry: nothing happens
+      have hst : t.stream e0.2 = b := stream_eq_of_get? hb
+      have : goAwayClosure last err t e0.2 = t := by
+        unfold goAwayClosure
+        simp only [hst]
+        rw [if_neg (fun h => hnsb ((sel_iff_cond hsrv b).mp h))]
+      rw [this]; exact het
+    · rcases goAwayClosure_cases last err t e0.2 with h | h
+      · rw [h]
+        have hne : e.1 ≠ e0.1 := by
+          intro h1
+          -- ids are unique in the map
+          have hnd := hids.1
+          obtain ⟨i, hi⟩ := List.getElem?_of_mem het
+          obtain ⟨j, hj⟩ := List.getElem?_of_mem he0
+          have h2 := findIdx?_of_nodup hnd hi
+          have h3 := findIdx?_of_nodup hnd hj
+          rw [h1] at h2
+          rw [h2] at h3
+          have hij : i = j := Option.some.inj h3
+          subst hij
+          rw [hi] at hj
+          exact hee (Option.some.inj hj).symm
+        cases hg0 : t.store.get? e0.2 with
+        | none => rw [hC.ids_none t e0.2 hg0]; exact het
+        | some a0 =>
+          rcases hC.ids t e0.2 a0 hg0 with h2 | h2
+          · rw [h2]; exact het
+          · rw [h2, hids.2 e0 he0 a0 hg0]; exact mem_swapRemove_of_ne het hne
+      · rw [h]; exact het
+
 /-- the loop of `recv_go_away` -/
 theorem ga_forEach (s1 : Streams) (hids : IdsOK s1.store) (hsrv : Srv srv s1) :
     GA last srv err s1 (s1.storeForEach (goAwayClosure last err)) ∧
+    KeepsLinks last srv s1 (s1.storeForEach (goAwayClosure last err)) ∧
     ∀ e ∈ s1.store.ids, Visited last srv e (s1.storeForEach (goAwayClosure last err)) := by
   have hC := errClosure_closure err
   have key := tryForEach_visits (goAwayClosure last err)
-    (fun t => IdsOK t.store ∧ Srv srv t ∧ GA last srv err s1 t)
+    (fun t => IdsOK t.store ∧ Srv srv t ∧ GA last srv err s1 t ∧ KeepsLinks last srv s1 t)
     (fun e t => Visited last srv e t)
     (fun t hI => hI.1.1)
     (fun t e hI _ => visited_closure hI.2.1 e)
     (fun t e e' hI _ hP => visited_of_ga (ga_closure hI.2.1 e.2) hP)
     (fun t e hI he => by
-      refine ⟨?_, goAwayClosure_srv hI.2.1 e.2, hI.2.2.trans (ga_closure hI.2.1 e.2)⟩
+      refine ⟨?_, goAwayClosure_srv hI.2.1 e.2, hI.2.2.1.trans (ga_closure hI.2.1 e.2),
+        keepsLinks_closure hI.1 hI.2.1 hI.2.2.1 hI.2.2.2 he⟩
       rcases goAwayClosure_cases last err t e.2 with h | h
       · rw [h]; exact hC.idsOK hI.1 he
       · rw [h]; exact hI.1)
@@ -208,12 +308,12 @@ theorem ga_forEach (s1 : Streams) (hids : IdsOK s1.store) (hsrv : Srv srv s1) :
         | none => exact Or.inl (hC.ids_none t e.2 hga)
         | some a0 => rw [← hI.1.2 e he a0 hga]; exact hC.ids t e.2 a0 hga
       · rw [h]; exact Or.inl rfl)
-    s1.store.ids (2 * s1.store.ids.length + 1) 0 s1 ⟨hids, hsrv, GA.refl s1⟩ (by omega)
+    s1.store.ids (2 * s1.store.ids.length + 1) 0 s1 ⟨hids, hsrv, GA.refl s1, fun e he _ _ _ => he⟩ (by omega)
     (fun e he => by
       obtain ⟨j, hj⟩ := List.getElem?_of_mem he
       exact Or.inr ⟨j, Nat.zero_le _, hj⟩)
   unfold Streams.storeForEach Streams.storeTryForEach
-  exact ⟨key.1.2.2, key.2⟩
+  exact ⟨key.1.2.2.1, key.1.2.2.2, key.2⟩
 
 end ga
 
@@ -233,7 +333,8 @@ theorem recvGoAwayFrame_cover (s s' : Streams) (hids : IdsOK s.store) (last : Na
     (∀ k a, s.store.get? k = some a → ¬ Sel last s.counts.isServer a →
       ∃ b, s'.store.get? k = some b ∧ Unt a b) ∧
     (∀ e ∈ s.store.ids, ∀ a, s.store.get? e.2 = some a → Sel last s.counts.isServer a →
-      s'.store.get? e.2 = none ∨ ∃ b, s'.store.get? e.2 = some b ∧ Failed (PErr.remoteGoAway d r) a b) := by
+      s'.store.get? e.2 = none ∨ ∃ b, s'.store.get? e.2 = some b ∧ Failed (PErr.remoteGoAway d r) a b) ∧
+    (∀ e ∈ s.store.ids, ∀ a, s.store.get? e.2 = some a → ¬ Sel last s.counts.isServer a → e ∈ s'.store.ids) := by
   unfold Streams.recvGoAwayFrame at hok
   rcases hsg : s.sendRecvGoAway last with ⟨s1, e | u⟩
   · rw [hsg] at hok; cases hok
@@ -246,14 +347,14 @@ theorem recvGoAwayFrame_cover (s s' : Streams) (hids : IdsOK s.store) (last : Na
     have hsrv1 : Srv s.counts.isServer s1 := by
       have := sendRecvGoAway_srv last (b := s.counts.isServer) (s := s) rfl
       rw [hsg] at this; exact this
-    obtain ⟨hga, hvis⟩ := ga_forEach (last := last) (err := PErr.remoteGoAway d r) s1 (h1s ▸ hids) hsrv1
+    obtain ⟨hga, hkl, hvis⟩ := ga_forEach (last := last) (err := PErr.remoteGoAway d r) s1 (h1s ▸ hids) hsrv1
     -- the loop of the model is that loop; `conn_error` is set afterwards
     have hloop : (s1.storeForEach fun s id =>
         let st := s.stream id
         if ((decide (st.id > last) || st.isPendingOpen) && s.counts.isLocalInit st.id) = true then
           (s.transition id fun s => ((s.recvHandleError id (PErr.remoteGoAway d r)).sendHandleError id, ())).1
         else s) = s1.storeForEach (goAwayClosure last (PErr.remoteGoAway d r)) := rfl
-    refine ⟨rfl, fun k hn => ?_, fun k a ha hns => ?_, fun e he a ha hsel => ?_⟩
+    refine ⟨rfl, fun k hn => ?_, fun k a ha hns => ?_, fun e he a ha hsel => ?_, fun e he a ha hns => ?_⟩
     · show (Streams.storeForEach _ _).store.get? k = none
       rw [hloop]; exact hga.fresh k (h1s ▸ hn)
     · show ∃ b, (Streams.storeForEach _ _).store.get? k = some b ∧ _
@@ -273,5 +374,8 @@ theorem recvGoAwayFrame_cover (s s' : Streams) (hids : IdsOK s.store) (last : Na
         · have hm : Mk b := hvis e (h1s ▸ he) b hb ((Sel.congr hu.id hu.isPendingOpen).mpr hsel)
           exact Failed.of_unt hu hm.resolved hm.cleared hm.sched
         · exact hf
+    · show e ∈ (Streams.storeForEach _ _).store.ids
+      rw [hloop]
+      exact hkl e (h1s ▸ he) a (h1s ▸ ha) hns
 
 end H2V.Lemmas.ConnPartP
